@@ -414,7 +414,10 @@ impl Accept {
             let info = &mut sockets[token];
 
             #[cfg(actix_net_verif)]
-            crate::verif::point(crate::verif::Point::BeforeAccept { token });
+            crate::verif::point(crate::verif::Point::BeforeAccept {
+                token,
+                paused: self.paused,
+            });
 
             match info.lst.accept() {
                 Ok(io) => {
